@@ -1224,7 +1224,7 @@ def c14(tier):
     run.rule = ("arrow family: 8 directions x glyph variants (> < ^ v V and triangle glyphs) x lengths 1..%d x seeded "
                 "offsets: ArrowOracle (one filled 3-vertex polygon, tip on the line's axis beyond its end and inside "
                 "the glyph's cell, base straddling the axis); bullet family: * o O at the start, end or middle of a "
-                "horizontal run of - ~ U+2500 U+2504 or a vertical run of | : ! U+2502: BulletOracle (marker line of the "
+                "horizontal run of - ~ U+2500 U+2504, a vertical run of | : ! U+2502 or a diagonal run of / \\ U+2571 U+2572: BulletOracle (marker line of the "
                 "documented kind ending at the bullet cell's centre, bullet not shown as text, dashed exactly when the "
                 "run's character is); corner family: rounded outlines (. ' and , ` styles) of sizes up to %s with "
                 "a stub: CornerOracle (four quarter arcs, endpoints are line ends, centre on the inner side). TLC "
@@ -1279,6 +1279,12 @@ def c14(tier):
                     row = " " * k + {"start": ch + hb * L, "end": hb * L + ch, "mid": hb * L + ch + hb * L}[pos]
                     cases.append(("\n" * n + row, "C14bullet", "bullet",
                                   {"ch": ord(ch), "pos": pos, "len": L, "k": k, "n": n, "dir": "h", "body": ord(hb)}))
+                for db, d in (("\\", "b"), ("/", "s"), ("╲", "b"), ("╱", "s")):
+                    k, n = r.randint(0, 5), r.randint(0, 3)
+                    col = {"start": ch + db * L, "end": db * L + ch, "mid": db * L + ch + db * L}[pos]
+                    rws = [" " * (k + i if d == "b" else k + len(col) - 1 - i) + c_ for i, c_ in enumerate(col)]
+                    cases.append(("\n" * n + "\n".join(rws), "C14bullet", "bullet",
+                                  {"ch": ord(ch), "pos": pos, "len": L, "k": k, "n": n, "dir": d, "body": ord(db)}))
                 for vb in "|:!│":
                     if vb in ":!" and L < 2:
                         continue
@@ -1292,14 +1298,16 @@ def c14(tier):
         for h in hs:
             if tier == "quick" and (w + h) % 2:
                 continue
-            for (tl, tr, bl, br) in [(".", ".", "'", "'"), (",", ".", "`", "'")]:
+            for (tl, tr, bl, br, off) in [(".", ".", "'", "'", 0), (",", ".", "`", "'", 0), (".", ".", "'", "'", 1)]:
+                if off and w < 3:
+                    continue
                 k, n = r.randint(0, 4), r.randint(0, 2)
-                rows = [" " * k + tl + "-" * w + tr]
+                rows = [" " * (k + off) + tl + "-" * (w - 2 * off) + tr]
                 for i in range(h):
                     rows.append(" " * k + "|" + " " * w + "|" + ("--" if i == 0 else ""))
-                rows.append(" " * k + bl + "-" * w + br)
+                rows.append(" " * (k + off) + bl + "-" * (w - 2 * off) + br)
                 cases.append(("\n" * n + "\n".join(rows), "C14corner", "outline",
-                              {"k": k, "n": n, "w": w, "h": h, "tl": ord(tl), "tr": ord(tr), "bl": ord(bl), "br": ord(br)}))
+                              {"k": k, "n": n, "w": w, "h": h, "tl": ord(tl), "tr": ord(tr), "bl": ord(bl), "br": ord(br), "off": off}))
     obs = observe.observe([{"input": c[0]} for c in cases], tag="C14A")
     for (t, pred, key, info), o in zip(cases, obs):
         run.add_event({"props": [pred], "rows": o["rows"], "doc": o["doc"], key: info}, {"input": t, key: info})
@@ -1697,9 +1705,9 @@ def c07(tier):
     path = os.path.join(common.rundir(), "MC_C07.cfg")
     with open(path, "w") as f:
         f.write("CONSTANTS\n  Threads = {%s}\n  Inputs = {1, 2}\n  MaxCalls = %d\nSPECIFICATION Spec\nPROPERTY EveryCallReturns\n"
-                "INVARIANTS OnceOnly DepOrder OneOwner NoReentrancy Deterministic NoDeadlock\nCHECK_DEADLOCK FALSE\n"
+                "INVARIANTS OnceOnly DepOrder OneOwner NoReentrancy Deterministic NoDeadlock IndInv\nCHECK_DEADLOCK FALSE\n"
                 % (("t1, t2" if tier == "quick" else "t1, t2, t3"), 2 if tier == "quick" else 1))
-    run.model("Service", path, timeout=3000)
+    run.model("ServiceInd", path, timeout=3000)
     corpus = [t for t in gen.mixed_corpus(r, ninputs)] + [b for _, b in gen.bundled_files()][:6]
     corpus += [gen.box(6, 1, "round", "{a}") + "\n# Legend:\na = {fill:red}", '"quoted" text 一二',
                gen.box(20, 1, "sharp", "{red,big,bold,hot}"), gen.box(12, 2, "uni", "{x1,y2,z3}") + "  ( a )--  ( b )--",
@@ -1903,9 +1911,11 @@ def c20(tier):
     run = Run("C20", tier)
     nclients = 16
     nreq = 60 if tier == "quick" else 1500
-    run.rule = ("model: Server.tla with 3 clients x %d requests of 7 classes, all interleavings: the response is a "
-                "function of the request alone, every response is allowed for its class, the server stays alive, every "
-                "request is answered (TLC, liveness); code: one svgbob_server process on 127.0.0.1, first a sequential "
+    run.rule = ("model: Server.tla (connection stages of the framework as separate actions: parse, route, extract under "
+                "the body limit, decode, convert on one of 2 runtime threads, respond) with 3 clients x %d requests of 7 "
+                "classes, all interleavings: the response is a function of the request alone, every response is allowed "
+                "for its class, the server stays alive, every request is answered (TLC, liveness under weak fairness "
+                "per client); code: one svgbob_server process on 127.0.0.1, first a sequential "
                 "client, then %d concurrent clients each issuing %d seeded requests (GET, POST of diagrams up to 20 kB "
                 "and hostile markup, empty body, invalid UTF-8, oversize 2 MiB+, other methods/paths, malformed raw "
                 "requests) and a final probe GET; each exchange is an event with the SHA-256 of the response body and "
@@ -1915,7 +1925,7 @@ def c20(tier):
     path = os.path.join(common.rundir(), "MC_C20.cfg")
     with open(path, "w") as f:
         f.write("CONSTANTS\n  Clients = {c1, c2, c3}\n  MaxReq = %d\nSPECIFICATION Spec\nPROPERTY AllAnswered\n"
-                "INVARIANTS ResponseIsFunctionOfRequest ResponsesAllowed ServerAlive\nCHECK_DEADLOCK FALSE\n" % (1 if tier == "quick" else 2))
+                "INVARIANTS TypeOK ResponseIsFunctionOfRequest ResponsesAllowed ServerAlive BusyCounts\nCHECK_DEADLOCK FALSE\n" % (1 if tier == "quick" else 2))
     run.model("Server", path, timeout=3000)
     _cli, srvbin = common.build_bins()
     toml = open(os.path.join(common.REPO, "crates", "svgbob_server", "Cargo.toml")).read()
